@@ -254,7 +254,7 @@ def run(ctx):
             ("unloaded", dict(D=3, Max0=2, PreName='"clean2"', Load0="FALSE", Sizes=S(100), Idx=S(0), ReMax=S(2), Loads="{TRUE, FALSE}",
                               LoadOp="TRUE")),
             ("max0", dict(D=2, Max0=0, PreName='"empty"', Sizes=S(0, 100), Idx=S(0), ReMax=S(0, 5000))),
-            ("last", dict(D=2, Max0=1023, PreName='"last"', Sizes=S(100), Idx=S(0, 1022), ReMax=S(1023))),
+            ("last", dict(D=2, Max0=5000, PreName='"last"', Sizes=S(100), Idx=S(0, 1022), ReMax=S(1023, 5000))),
             ("full", dict(D=2, Max0=2, PreName='"full"', Sizes=S(100, 101), WSizes=S(), Idx=S(0), ReMax=S())),
             ("fn", dict(Family='"fn"')),
             ("dyn", dict(Family='"dyn"', D=3)),
@@ -273,13 +273,17 @@ def run(ctx):
             ("unloaded", dict(D=4, Max0=2, PreName='"clean2"', Load0="FALSE", Sizes=S(100, CAP), Idx=S(0), ReMax=S(2), Loads="{TRUE, FALSE}",
                               LoadOp="TRUE")),
             ("max0", dict(D=3, Max0=0, PreName='"empty"', Sizes=S(0, 100), Idx=S(0), ReMax=S(0, 5000))),
-            ("last", dict(D=3, Max0=1023, PreName='"last"', Sizes=S(100), Idx=S(0, 1022), ReMax=S(1023))),
+            ("last", dict(D=3, Max0=5000, PreName='"last"', Sizes=S(100), Idx=S(0, 1022), ReMax=S(1023, 5000))),
             ("full", dict(D=3, Max0=2, PreName='"full"', Sizes=S(0, 100, 101), WSizes=S(), Idx=S(0), ReMax=S(2))),
             ("over", dict(D=2, Max0=2, PreName='"over"', Sizes=S(0, 1), WSizes=S(), Idx=S(0), ReMax=S(2))),
             ("fn", dict(Family='"fn"')),
             ("dyn", dict(Family='"dyn"', D=5)),
         ]
         nrand = 4000
+    only = set(filter(None, os.environ.get("VERIF_X01_FAMILIES", "").split(",")))   # development aid, never set by registered commands
+    if only:
+        plan = [plan[0]] + [p for p in plan[1:] if p[0] in only]
+        nrand = nrand if "random" in only else 20
     total = distinct = 0
     # the largest family first with all threads, the others side by side with a share each
     name, over = plan[0]
